@@ -76,7 +76,10 @@ def cells(series="closed", gimbal=None):
     Euler gimbal-band tests `fabs(asin(.) -+ pi/2) < 1e-3` (gimbal: 'outside' | None = explore)."""
 
     def is_gimbal(g, n):
-        x = g.args(g.args(n)[0])[0]
+        a0 = g.args(n)[0]
+        if g.op(a0) != "FABS":
+            return False
+        x = g.args(a0)[0]
         if g.op(x) in ("ADD", "SUB"):
             a, b = g.args(x)
             return "ASIN" in (g.op(a), g.op(b))
@@ -85,7 +88,8 @@ def cells(series="closed", gimbal=None):
     def decide(low, n):
         g = low.g
         op, args, _ = g.nodes[n]
-        if op == "LT" and g.op(args[0]) == "FABS" and g.op(args[1]) == "CONST" and g.payload(args[1]) == SERIES_EPS:
+        # CasADi simplifies fabs(x*x) to x*x, so the Taylor switch appears with or without the FABS node
+        if op == "LT" and g.op(args[1]) == "CONST" and g.payload(args[1]) == SERIES_EPS:
             if is_gimbal(g, n):
                 return False if gimbal == "outside" else None
             if series == "closed":
